@@ -68,9 +68,9 @@ def genPoly : Handler
       let a ← bPoly? a; let b ← bPoly? b; pure (okBO (Gen.Poly.fast_multiply FB FB FB FB.mul TB.ntt TB.ntt TB.intt a b))
   | "ssq", [.sym "b", a] => do let a ← bPoly? a; if a.length > 96 then none else pure (okBO (Gen.Poly.slow_square FB a))
   | "pow", [.sym "b", a, .nat e] => do
-      let a ← bPoly? a; if a.length > 96 || e ≥ 2 ^ 32 || a.length * e > 4096 then none else pure (okBO (Gen.Poly.pow FB a e))
+      let a ← bPoly? a; if a.length > 96 || e ≥ 2 ^ 32 || (a.length - 1) * e > 4096 then none else pure (okBO (Gen.Poly.pow FB a e))
   | "fpow", [.sym "b", a, .nat e] => do
-      let a ← bPoly? a; if a.length > 96 || e ≥ 2 ^ 32 || a.length * e > 4096 then none else
+      let a ← bPoly? a; if a.length > 96 || e ≥ 2 ^ 32 || (a.length - 1) * e > 4096 then none else
       pure (okBO (Gen.Poly.fast_pow FB (Gen.Poly.fast_square FB TB.ntt TB.intt)
         (Gen.Poly.fast_multiply FB FB FB FB.mul TB.ntt TB.ntt TB.intt) a e))
   | "sq", [.sym "b", a] => do
@@ -91,9 +91,9 @@ def genPoly : Handler
       let a ← xPoly? a; let b ← xPoly? b; pure (okXO (Gen.Poly.fast_multiply FX FX FX FX.mul TX.ntt TX.ntt TX.intt a b))
   | "ssq", [.sym "x", a] => do let a ← xPoly? a; if a.length > 64 then none else pure (okXO (Gen.Poly.slow_square FX a))
   | "pow", [.sym "x", a, .nat e] => do
-      let a ← xPoly? a; if a.length > 64 || e ≥ 2 ^ 32 || a.length * e > 2048 then none else pure (okXO (Gen.Poly.pow FX a e))
+      let a ← xPoly? a; if a.length > 64 || e ≥ 2 ^ 32 || (a.length - 1) * e > 2048 then none else pure (okXO (Gen.Poly.pow FX a e))
   | "fpow", [.sym "x", a, .nat e] => do
-      let a ← xPoly? a; if a.length > 64 || e ≥ 2 ^ 32 || a.length * e > 2048 then none else
+      let a ← xPoly? a; if a.length > 64 || e ≥ 2 ^ 32 || (a.length - 1) * e > 2048 then none else
       pure (okXO (Gen.Poly.fast_pow FX (Gen.Poly.fast_square FX TX.ntt TX.intt)
         (Gen.Poly.fast_multiply FX FX FX FX.mul TX.ntt TX.ntt TX.intt) a e))
   | "smul", [.sym "x", a, s] => do let a ← xPoly? a; let s ← xElem? s; pure (okX (Gen.Poly.scalar_mul FX FX.mul a s))
